@@ -48,6 +48,8 @@ pub struct HookState {
     /// The `FnRef` to drop inside the poll (lifetime erased; it is always taken
     /// out again before the consumer, and thus the graph borrow, goes away).
     slot: std::sync::Mutex<Option<FnRef<'static, TestFn>>>,
+    /// Something else to do at that moment (poll another run).
+    nested: std::sync::Mutex<Option<Box<dyn FnOnce()>>>,
 }
 
 impl HookState {
@@ -57,6 +59,7 @@ impl HookState {
             clones: AtomicUsize::new(0),
             armed_at: AtomicUsize::new(usize::MAX),
             slot: std::sync::Mutex::new(None),
+            nested: std::sync::Mutex::new(None),
         })
     }
     fn waker(self: &Arc<Self>) -> Waker {
@@ -70,6 +73,10 @@ impl HookState {
                 // FnRef::drop notifies the stream: exactly what a drop on another
                 // thread does while this poll is in progress
                 drop(f);
+                let h = st.nested.lock().unwrap().take();
+                if let Some(h) = h {
+                    h();
+                }
             }
             RawWaker::new(p, &VTABLE)
         }
@@ -115,7 +122,19 @@ pub enum Act {
     /// channel).  This is what a drop on another thread *during* the poll looks
     /// like, made deterministic.
     PollDropping(usize, usize),
+    /// A poll during which, at the `.1`-th registration of the waker, *another*
+    /// run on the same graph (run `.0` of a multi-run case) is polled once: what a
+    /// poll of that run on another thread, overlapping this poll, looks like, made
+    /// deterministic.  Without an installed hook (solo replay) it is a plain poll.
+    PollNesting(usize, usize),
+    /// An event that is not part of this run: the `.0`-th `FnRef` left over from
+    /// an earlier, finished run on the same graph value is dropped now.
+    External(usize),
 }
+
+/// Something left over from an earlier run on the same graph (a `FnRef` that is
+/// still alive), dropped at a generated point of a later run.
+pub type External = Box<dyn FnOnce()>;
 
 #[derive(Clone, Debug, PartialEq, Eq, Hash, Serialize, Deserialize)]
 pub enum Ev {
@@ -344,6 +363,8 @@ pub struct Interrupter {
     tx: Option<mpsc::Sender<InterruptSignal>>,
     pub sent: bool,
     drop_after_send: bool,
+    /// The signal was received by the state before the call began (`pre_interrupted`).
+    pub pre: bool,
 }
 
 impl Interrupter {
@@ -383,7 +404,7 @@ fn make_opts(cfg: &RunCfg) -> (StreamOpts<'static, 'static>, Interrupter) {
     }
     #[cfg(feature = "intr")]
     {
-        let (tx, state): (_, InterruptibilityState<'static, 'static>) = match cfg.strat {
+        let (tx, state): (Option<mpsc::Sender<InterruptSignal>>, InterruptibilityState<'static, 'static>) = match cfg.strat {
             Strat::NonInterruptible => (None, InterruptibilityState::new_non_interruptible()),
             Strat::IgnoreInterruptions => {
                 let (tx, rx) = mpsc::channel::<InterruptSignal>(4);
@@ -404,10 +425,21 @@ fn make_opts(cfg: &RunCfg) -> (StreamOpts<'static, 'static>, Interrupter) {
                 )
             }
         };
+        let mut state = state;
+        let mut intr = Interrupter { tx, sent: false, drop_after_send: cfg.drop_sender, pre: false };
+        if cfg.pre_interrupted > 0 && intr.tx.is_some() {
+            // what an earlier run sharing this state did: it received the signal
+            // and polled items afterwards
+            intr.send();
+            for _ in 0..cfg.pre_interrupted {
+                let _ = state.item_interrupt_poll(true);
+            }
+            intr.pre = true;
+        }
         opts = opts
             .interruptibility_state(state)
             .interrupted_next_item_include(cfg.include);
-        (opts, Interrupter { tx, sent: false, drop_after_send: cfg.drop_sender })
+        (opts, intr)
     }
     #[cfg(not(feature = "intr"))]
     {
@@ -415,7 +447,7 @@ fn make_opts(cfg: &RunCfg) -> (StreamOpts<'static, 'static>, Interrupter) {
             cfg.strat == Strat::NonInterruptible,
             "interrupt strategies need the intr build"
         );
-        (opts, Interrupter { sent: false, drop_after_send: cfg.drop_sender })
+        (opts, Interrupter { sent: false, drop_after_send: cfg.drop_sender, pre: false })
     }
 }
 
@@ -448,6 +480,28 @@ pub trait Stepper {
     fn note_burn(&mut self, units: usize);
     /// Did the last poll return Pending (call / stream not finished)?
     fn pending(&self) -> bool;
+    /// Left-overs of earlier runs that may be dropped during this run.
+    fn set_externals(&mut self, ext: Vec<External>);
+    /// The left-overs not dropped so far.
+    fn take_externals(&mut self) -> Vec<External>;
+    fn has_externals(&self) -> bool;
+    /// The call future / the stream still exists and has not finished.
+    fn source_live(&self) -> bool;
+    /// What `Act::PollNesting` runs inside the poll (None: nothing).
+    fn set_nested_hook(&mut self, hook: Option<Box<dyn FnOnce()>>);
+}
+
+fn external_options(ext: &[Option<External>], v: &mut Vec<Act>) {
+    for (i, e) in ext.iter().enumerate() {
+        if e.is_some() {
+            v.push(Act::External(i));
+        }
+    }
+}
+
+fn external_fire(ext: &mut [Option<External>], i: usize) -> Option<Result<(), String>> {
+    let e = ext.get_mut(i)?.take()?;
+    Some(catch_unwind(AssertUnwindSafe(e)).map_err(panic_msg))
 }
 
 thread_local! {
@@ -491,7 +545,8 @@ fn panic_msg(p: Box<dyn std::any::Any + Send>) -> String {
 pub struct Runner<'g> {
     sh: Sh,
     fut: Option<Pin<Box<dyn Future<Output = Ret> + 'g>>>,
-    cw: Arc<CountWaker>,
+    cw: Arc<HookState>,
+    nested_hook: Option<Box<dyn FnOnce()>>,
     intr: Interrupter,
     polled: bool,
     polls: usize,
@@ -500,6 +555,7 @@ pub struct Runner<'g> {
     ret: Option<Ret>,
     acts: Vec<Act>,
     deferred: bool,
+    externals: Vec<Option<External>>,
 }
 
 impl<'g> Runner<'g> {
@@ -520,6 +576,9 @@ impl<'g> Runner<'g> {
             ..Default::default()
         }));
         let (opts, intr) = make_opts(cfg);
+        if intr.pre {
+            sh.borrow_mut().trace.push(Ev::Interrupt);
+        }
         let limit = cfg.limit;
         let with = cfg.api.with;
         let s = sh.clone();
@@ -672,7 +731,8 @@ impl<'g> Runner<'g> {
         Runner {
             sh,
             fut: Some(fut),
-            cw: Arc::new(CountWaker(AtomicUsize::new(0))),
+            cw: HookState::new(),
+            nested_hook: None,
             intr,
             polled: false,
             polls: 0,
@@ -681,11 +741,12 @@ impl<'g> Runner<'g> {
             ret: None,
             acts: Vec::new(),
             deferred: false,
+            externals: Vec::new(),
         }
     }
 
     fn woken(&self) -> bool {
-        self.cw.0.load(Ordering::SeqCst) > 0
+        self.cw.wakes.load(Ordering::SeqCst) > 0
     }
 
     /// In flight and not yet released.
@@ -742,6 +803,7 @@ impl Stepper for Runner<'_> {
         if self.intr.can_send() {
             v.push(Act::Interrupt);
         }
+        external_options(&self.externals, &mut v);
         if !wp {
             v.push(Act::Poll);
         }
@@ -752,16 +814,28 @@ impl Stepper for Runner<'_> {
             return false;
         }
         match a {
-            Act::Poll => {
+            Act::Poll | Act::PollNesting(..) => {
                 self.acts.push(a);
-                let waker = Waker::from(self.cw.clone());
+                // a fresh waker for every poll: only a wake-up of the waker given
+                // to the *latest* poll counts (the Future contract), so a stale
+                // registration is seen as a lost wake-up
+                self.cw = HookState::new();
+                if let Act::PollNesting(_, nth) = a {
+                    if let Some(h) = self.nested_hook.take() {
+                        *self.cw.nested.lock().unwrap() = Some(h);
+                        self.cw.armed_at.store(nth.max(1), Ordering::SeqCst);
+                    }
+                }
+                let waker = self.cw.waker();
                 let mut cx = Context::from_waker(&waker);
-                self.cw.0.store(0, Ordering::SeqCst);
                 self.polled = true;
                 self.polls += 1;
                 self.polls_since_external += 1;
                 let fut = self.fut.as_mut().unwrap();
-                match catch_unwind(AssertUnwindSafe(|| fut.as_mut().poll(&mut cx))) {
+                let polled = catch_unwind(AssertUnwindSafe(|| fut.as_mut().poll(&mut cx)));
+                self.cw.armed_at.store(usize::MAX, Ordering::SeqCst);
+                drop(self.cw.nested.lock().unwrap().take());
+                match polled {
                     Err(p) => {
                         // Dropping a future that panicked mid-poll may panic again.
                         std::mem::forget(self.fut.take());
@@ -802,7 +876,7 @@ impl Stepper for Runner<'_> {
                     // never polled yet: it is ready on its first poll, which the
                     // library performs when it next runs.
                     None => {
-                        self.cw.0.fetch_add(1, Ordering::SeqCst);
+                        self.cw.wakes.fetch_add(1, Ordering::SeqCst);
                     }
                 }
                 self.note_quiet();
@@ -830,8 +904,38 @@ impl Stepper for Runner<'_> {
                 }
                 true
             }
+            Act::External(i) => match external_fire(&mut self.externals, i) {
+                None => false,
+                Some(r) => {
+                    self.acts.push(a);
+                    match r {
+                        // no observation point: the event is not part of this run
+                        Ok(()) => {}
+                        Err(m) => {
+                            std::mem::forget(self.fut.take());
+                            self.ret = Some(Ret::Panic(format!("on drop of an earlier run's FnRef: {m}")));
+                        }
+                    }
+                    true
+                }
+            },
             Act::Yield | Act::Burn(_) | Act::PollDropping(..) => false,
         }
+    }
+    fn set_externals(&mut self, ext: Vec<External>) {
+        self.externals = ext.into_iter().map(Some).collect();
+    }
+    fn take_externals(&mut self) -> Vec<External> {
+        self.externals.drain(..).flatten().collect()
+    }
+    fn has_externals(&self) -> bool {
+        self.externals.iter().any(|e| e.is_some())
+    }
+    fn source_live(&self) -> bool {
+        self.ret.is_none()
+    }
+    fn set_nested_hook(&mut self, hook: Option<Box<dyn FnOnce()>>) {
+        self.nested_hook = hook;
     }
     fn set_deferred(&mut self, on: bool) {
         self.deferred = on;
@@ -895,12 +999,15 @@ pub struct Consumer<'g> {
     acts: Vec<Act>,
     viol: Vec<EngineViolation>,
     deferred: bool,
+    externals: Vec<Option<External>>,
+    nested_hook: Option<Box<dyn FnOnce()>>,
 }
 
 impl<'g> Consumer<'g> {
     pub fn new(g: &'g FnGraph<TestFn>, cfg: &RunCfg) -> Self {
         let n = g.graph.node_count();
         let (opts, intr) = make_opts(cfg);
+        let pre = intr.pre;
         // creating the stream runs library code (channel set-up, preload): a panic
         // there is a verdict, not a harness failure
         let created = catch_unwind(AssertUnwindSafe(|| -> Pin<Box<dyn Stream<Item = Item<'g>> + 'g>> {
@@ -934,18 +1041,30 @@ impl<'g> Consumer<'g> {
             effective: cfg.strat.effective() && cfg.api.shape == Shape::StreamIntr,
             held: Vec::new(),
             yielded: Vec::new(),
-            trace: Vec::new(),
+            trace: if pre { vec![Ev::Interrupt] } else { Vec::new() },
             last_pending: false,
             polled: false,
             saw_intr_item: false,
-            signal_sent: false,
+            signal_sent: pre,
             ended: false,
             polls: 0,
             ret,
             acts: Vec::new(),
             viol: Vec::new(),
             deferred: false,
+            externals: Vec::new(),
+            nested_hook: None,
         }
+    }
+
+    /// The `FnRef`s still held, handed to the caller (a later run on the same
+    /// graph drops them at generated points).
+    pub fn take_held(&mut self) -> Vec<FnRef<'g, TestFn>> {
+        std::mem::take(&mut self.held)
+    }
+
+    pub fn is_stream_live(&self) -> bool {
+        self.stream_live()
     }
 
     fn woken(&self) -> bool {
@@ -994,13 +1113,19 @@ impl<'g> Consumer<'g> {
 
     /// One `poll_next`; with `in_poll_drop = Some((index in held, n))` the FnRef is
     /// dropped at the n-th registration of the waker inside that poll.
-    fn do_poll(&mut self, in_poll_drop: Option<(usize, usize)>) {
+    fn do_poll(&mut self, in_poll_drop: Option<(usize, usize)>, nesting: Option<usize>) {
+            // a fresh waker for every poll (see Runner): wake-ups of wakers handed
+            // to earlier polls do not count
+            self.hook = HookState::new();
             let waker = self.hook.waker();
             let mut cx = Context::from_waker(&waker);
-            self.hook.wakes.store(0, Ordering::SeqCst);
-            self.hook.clones.store(0, Ordering::SeqCst);
-            self.hook.armed_at.store(usize::MAX, Ordering::SeqCst);
             let mut dropping: Option<usize> = None;
+            if let Some(nth) = nesting {
+                if let Some(h) = self.nested_hook.take() {
+                    *self.hook.nested.lock().unwrap() = Some(h);
+                    self.hook.armed_at.store(nth.max(1), Ordering::SeqCst);
+                }
+            }
             if let Some((ix, nth)) = in_poll_drop {
                 let f = self.held.remove(ix);
                 dropping = Some(f.id);
@@ -1015,6 +1140,7 @@ impl<'g> Consumer<'g> {
             let s = self.stream.as_mut().unwrap();
             let r = catch_unwind(AssertUnwindSafe(|| s.as_mut().poll_next(&mut cx)));
             self.hook.armed_at.store(usize::MAX, Ordering::SeqCst);
+            drop(self.hook.nested.lock().unwrap().take());
             if let Some(id) = dropping {
                 let back = self.hook.slot.lock().unwrap().take();
                 match back {
@@ -1133,6 +1259,7 @@ impl Stepper for Consumer<'_> {
                 v.push(Act::PollDropping(f.id, 2));
             }
         }
+        external_options(&self.externals, &mut v);
         if !wp && self.stream_live() {
             v.push(Act::Poll);
         }
@@ -1145,7 +1272,15 @@ impl Stepper for Consumer<'_> {
                     return false;
                 }
                 self.acts.push(a);
-                self.do_poll(None);
+                self.do_poll(None, None);
+                true
+            }
+            Act::PollNesting(_, nth) => {
+                if !self.stream_live() {
+                    return false;
+                }
+                self.acts.push(a);
+                self.do_poll(None, Some(nth));
                 true
             }
             Act::PollDropping(id, nth) => {
@@ -1156,7 +1291,7 @@ impl Stepper for Consumer<'_> {
                     return false;
                 };
                 self.acts.push(a);
-                self.do_poll(Some((ix, nth)));
+                self.do_poll(Some((ix, nth)), None);
                 true
             }
             Act::Complete(id) => {
@@ -1204,8 +1339,32 @@ impl Stepper for Consumer<'_> {
                 }
                 true
             }
+            Act::External(i) => match external_fire(&mut self.externals, i) {
+                None => false,
+                Some(r) => {
+                    self.acts.push(a);
+                    match r {
+                        Ok(()) => {}
+                        Err(m) => {
+                            std::mem::forget(self.stream.take());
+                            std::mem::forget(std::mem::take(&mut self.held));
+                            self.ret = Some(Ret::Panic(format!("on drop of an earlier run's FnRef: {m}")));
+                        }
+                    }
+                    true
+                }
+            },
             Act::Yield | Act::Burn(_) => false,
         }
+    }
+    fn set_externals(&mut self, ext: Vec<External>) {
+        self.externals = ext.into_iter().map(Some).collect();
+    }
+    fn take_externals(&mut self) -> Vec<External> {
+        self.externals.drain(..).flatten().collect()
+    }
+    fn has_externals(&self) -> bool {
+        self.externals.iter().any(|e| e.is_some())
     }
     fn set_deferred(&mut self, on: bool) {
         self.deferred = on;
@@ -1221,6 +1380,12 @@ impl Stepper for Consumer<'_> {
     }
     fn pending(&self) -> bool {
         self.stream_live() && self.last_pending
+    }
+    fn source_live(&self) -> bool {
+        self.stream_live()
+    }
+    fn set_nested_hook(&mut self, hook: Option<Box<dyn FnOnce()>>) {
+        self.nested_hook = hook;
     }
     fn acts(&self) -> &[Act] {
         &self.acts
